@@ -177,6 +177,67 @@ class Follow:
                     out.add('unknown')
         return out or {'unknown'}
 
+    def fate_payload(self, path, l, depth=0, seen=None):
+        """verdicts for a fallible value that is the *payload* of the Option / Result held in local l (`opt.map(|x| fallible(x))` yields
+        Option<Result<..>>): it is looked at only by whoever receives the payload - the parameter of the next closure mapped over it, the
+        value `?` extracts - or when the nesting is removed (`flatten`, `and_then(identity)`), or by the caller when returned as it is."""
+        seen = seen if seen is not None else set()
+        if (path, l, 'payload') in seen or depth > 8:
+            return set()
+        seen.add((path, l, 'payload'))
+        b = self.prog.bodies[path]
+        if l == 0:
+            return {'returned'}
+        us = self.uses(path).get(l, [])
+        if not us:
+            return {('discard', '%s L%s' % (b.file(), self._def_line(b, l)), 'the result is never used')}
+        out = set()
+        for kind, bi, x, pos in us:
+            if kind == 'assign':
+                rv = x['rv']
+                src = rv.get('pl') or (rv.get('op') or {}).get('pl') or {}
+                if any(q['k'] == 'field' for q in src.get('p', [])):
+                    out |= self.fate(path, x['dst']['l'], depth + 1, set())        # the payload itself, taken out of the wrapper
+                else:
+                    out |= self.fate_payload(path, x['dst']['l'], depth + 1, seen)
+            elif kind in ('discr', 'switch'):
+                continue          # looks at the wrapper only
+            elif kind == 'call':
+                t = x
+                cal = t.get('callee') or ''
+                where = '%s L%s' % (b.file(), t.get('line'))
+                if pos != 0:
+                    out.add('unknown')
+                elif cal in OBSERVE:
+                    out |= self.fate_payload(path, t['dst']['l'], depth + 1, seen)      # `?`: ControlFlow<_, payload>; the payload is read out of it by a field projection
+                elif cal.endswith(('::flatten', )):
+                    out |= self.fate(path, t['dst']['l'], depth + 1, set())
+                elif cal.endswith(('Result::<T, E>::map', 'Option::<T>::map', '::and_then', '::is_some_and', '::is_ok_and', '::map_or', '::map_or_else', '::inspect')) and len(t['args']) >= 2:
+                    f = t['args'][-1]
+                    ci = self.eng.fndep(path)._closure_info(f['pl']['l']) if f.get('k') in ('copy', 'move') and not f['pl'].get('p') else None
+                    if ci is not None and ci[0] in self.prog.bodies:
+                        pf = self.fate(ci[0], 2, depth + 1, set())
+                        if any(isinstance(v, tuple) for v in pf):
+                            out |= {('discard', where, '%s: the closure ignores the fallible value it is given' % cal.split('::')[-1])}
+                        elif 'returned' in pf and cal.endswith(('::map', )):
+                            out |= self.fate_payload(path, t['dst']['l'], depth + 1, seen)   # handed through: still the payload of the result
+                        elif 'returned' in pf:
+                            out |= self.fate(path, t['dst']['l'], depth + 1, set())          # and_then: now the result itself
+                        else:
+                            out |= pf
+                    else:
+                        out.add('unknown')
+                elif cal.endswith(('::map_err', '::ok_or', '::ok_or_else', '::as_ref', '::as_mut', 'std::clone::Clone::clone', '::or_else', 'Option::<T>::or', 'Result::<T, E>::or',
+                                   'Option::<T>::filter', '::inspect_err')):
+                    out |= self.fate_payload(path, t['dst']['l'], depth + 1, seen)
+                elif cal.endswith(('::unwrap', '::expect')):
+                    out |= self.fate(path, t['dst']['l'], depth + 1, set())
+                elif cal.endswith(('::is_ok', '::is_err', '::is_none', '::is_some')):
+                    continue      # looks at the wrapper only
+                else:
+                    out.add('unknown')
+        return out or {('discard', '%s L%s' % (b.file(), self._def_line(b, l)), 'only the wrapper of the fallible value is ever looked at')}
+
     @staticmethod
     def _def_line(b, l):
         for bi, t in b.calls():
@@ -224,7 +285,12 @@ def rule_errors_not_discarded(ctx, cfg='prod-all', scope=SCOPE, rule='RF-Y', min
                 if cal.endswith(ITER_DROP) or cal.endswith(('Option::<T>::map_or', 'Result::<T, E>::map_or')):
                     yield Ob(rule, key, False, 'a fallible function is applied through %s: its failures are dropped instead of reported' % short, where,
                              fact={'function': what, 'adaptor': cal}, expected='map(..) + collect::<Result<_, _>>()? / a loop with ?')
-                elif cal.endswith(('Iterator::map', 'Iterator::map_while', '::and_then', 'Result::<T, E>::map', 'Option::<T>::map', '::or_else')):
+                elif cal.endswith(('Result::<T, E>::map', 'Option::<T>::map')):
+                    # the fallible value becomes the payload of the mapped Option / Result: Option<Result<..>>
+                    fate = fo.fate_payload(p, t['dst']['l'])
+                    for ob in _verdict(rule, key, fate, b, t, 'the results of %s applied by %s' % (what, short)):
+                        yield ob
+                elif cal.endswith(('Iterator::map', 'Iterator::map_while', '::and_then', '::or_else')):
                     fate = fo.fate(p, t['dst']['l'])
                     for ob in _verdict(rule, key, fate, b, t, 'the results of %s applied by %s' % (what, short)):
                         yield ob
